@@ -470,6 +470,7 @@ pub fn assemble_forced(prog: &Program, forced: Option<&HashMap<usize, usize>>) -
                     None => return reject(i, "res-range", v.to_string()),
                 },
                 Ok(_) => return reject(i, "res-type", ""),
+                Err(EvalErr::AssertFailed) => return reject(i, "assertion-failed", "in the operand of #res"),
                 Err(_) => match forced.and_then(|f| f.get(&(n + i))) {
                     Some(next) if n_bankdefs == 0 && *next >= before => {
                         size = *next - before;
@@ -493,6 +494,7 @@ pub fn assemble_forced(prog: &Program, forced: Option<&HashMap<usize, usize>>) -
                     None => return reject(i, "align-range", v.to_string()),
                 },
                 Ok(_) => return reject(i, "align-type", ""),
+                Err(EvalErr::AssertFailed) => return reject(i, "assertion-failed", "in the operand of #align"),
                 Err(_) => match forced.and_then(|f| f.get(&(n + i))) {
                     Some(next) if n_bankdefs == 0 && *next >= before => {
                         size = *next - before;
